@@ -136,6 +136,69 @@ def rule_init_coherence(ctx: Ctx, prog: Program) -> None:
     ctx.rule("R-INIT-COHERENCE")
     for a in init_analyses(prog):
         _init_coherence_one(ctx, prog, a)
+    _sort_guard(ctx, prog)
+
+
+def _sort_guard(ctx: Ctx, prog: Program) -> None:
+    """init() may be called several times on one problem (once per solver) and the problem may be extended in between.  If the sort of the
+    constraints is skipped under a condition on attributes of the problem (`if not self.sorted: ... sort ...`), every method that changes the
+    constraint list must invalidate those attributes; otherwise constraints added after a first solver stay in posting order and the
+    scheduling order -- hence statistics, and results wherever the order matters -- depends on whether a solver was built earlier."""
+    m = prog.modules.get(f"{prog.package}.{PB_MOD}")
+    if m is None:
+        raise AnalysisError("anchor module vanished: problems.problem")
+    methods = m.classes.get("Problem", {})
+    init = methods.get("init")
+    if init is None:
+        raise AnalysisError("anchor function vanished: Problem.init")
+
+    def is_sort(n: ast.AST) -> bool:
+        return isinstance(n, ast.Call) and isinstance(n.func, ast.Attribute) and n.func.attr == "sort" and ast.unparse(n.func.value) == "self.propagators"
+
+    guards: List[str] = []
+
+    def walk(stmts: List[ast.stmt], conds: List[ast.expr]) -> None:
+        for st in stmts:
+            if isinstance(st, ast.If):
+                walk(st.body, conds + [st.test])
+                walk(st.orelse, conds + [st.test])
+            elif isinstance(st, (ast.For, ast.While, ast.With, ast.Try)):
+                for nm in ("body", "orelse", "finalbody"):
+                    walk(getattr(st, nm, []) or [], conds)
+            elif any(is_sort(n) for n in ast.walk(st)):
+                for c in conds:
+                    for n in ast.walk(c):
+                        if isinstance(n, ast.Attribute) and isinstance(n.value, ast.Name) and n.value.id == "self" and n.attr not in guards:
+                            guards.append(n.attr)
+    walk(init.node.body, [])
+    if not guards:
+        ctx.ok("R-INIT-COHERENCE", "the sort of the constraints is not conditional on state of the problem", nontrivial=False)
+        return
+    mutators = []
+    for name, f in methods.items():
+        if name in ("init", "__init__"):
+            continue
+        mut = False
+        for n in ast.walk(f.node):
+            if isinstance(n, ast.Call) and isinstance(n.func, ast.Attribute) and ast.unparse(n.func.value) == "self.propagators" \
+                    and n.func.attr in ("append", "extend", "insert", "remove", "pop", "clear", "reverse", "sort"):
+                mut = True
+            if isinstance(n, (ast.Assign, ast.AugAssign)):
+                tg = n.targets if isinstance(n, ast.Assign) else [n.target]
+                if any(ast.unparse(t).startswith("self.propagators") for t in tg):
+                    mut = True
+        if mut:
+            mutators.append((name, f))
+    for g in guards:
+        for name, f in mutators:
+            resets = any(isinstance(n, ast.Assign) and any(ast.unparse(t) == f"self.{g}" for t in n.targets) for n in ast.walk(f.node))
+            if resets:
+                ctx.ok("R-INIT-COHERENCE", f"Problem.{name} invalidates self.{g}, which conditions the sort in init()")
+            else:
+                ctx.violation("R-INIT-COHERENCE", f.path, f"Problem.{name}", f"sort-guard-stale:{g}", f.loc(),
+                              f"init() sorts the constraints only under a condition on self.{g}, and Problem.{name} changes the constraint list without "
+                              f"touching self.{g}: constraints added after a first solver was built stay in posting order, so the scheduling order "
+                              "(statistics, and results wherever the order matters) depends on whether a solver was built earlier")
 
 
 def _init_coherence_one(ctx: Ctx, prog: Program, a: InitAnalysis) -> None:
